@@ -413,6 +413,8 @@ def _roundtrip(M, r, localized):
         dform = "YYYY-MM-DD"
     if tzf == "z" and kind == "fixed":
         tzf = "Z"
+    if dflag == "wd" and tzf in ("z", ""):
+        tzf = "Z"       # the open finding on `d` moves the date: with an explicit offset no zone rule re-normalises the moved value
     glue = r.choice((" ", "T", " [at] ", " [the time is] ", ", ", " [xx] ")) if r.random() < 0.5 else " "
     fmt = dform + glue + tform + frac + ((" " + tzf) if tzf else "")
     # what survives the trip
@@ -480,7 +482,14 @@ def _roundtrip(M, r, localized):
         # mechanism classifier for the recorded finding: `d` is rendered 0=Sunday..6=Saturday but parsed as 0=Monday..6=Sunday,
         # so the date moves to the next weekday inside its Monday-based week (+1 day, Sunday -> Monday six days back)
         d0, d1 = dt.date(*want[0][:3]), dt.date(*got[0][:3])
-        if got[0][3:] == want[0][3:] and (got[1] == want[1] or tzf in ("", "z")) and (d1 - d0).days == (-6 if d0.weekday() == 6 else 1):
+        shifted = (d1 - d0).days == (-6 if d0.weekday() == 6 else 1)
+        same_time = got[0][3:] == want[0][3:] and (got[1] == want[1] or tzf in ("", "z"))
+        if shifted and not same_time and tzf in ("", "z") and kind in ("zone", "zone3", "zoneodd"):
+            # the shifted date may be a day on which this wall time is skipped or repeated in the zone: renormalised there
+            from pvmon.common import wall_us as _w2
+
+            same_time = tzdb.Z.get(x.tzinfo.key).classify_wall(_w2(dt.datetime(*(d1.timetuple()[:3] + tuple(want[0][3:])))))[0] != "once"
+        if shifted and same_time:
             vsig = "C08/roundtrip:token-d:parsed-monday-based"
     M.check(mon, okf, vsig, "from_format(format(x)) is not x", fmt=fmt, string=s,
             value=x.isoformat(), got=[list(got[0]), got[1]], expected=[list(want[0]), want[1]])
